@@ -51,17 +51,17 @@ def run(ctx):
     fm = [pool.submit(ctx.modelcheck, "MapReduce", cfg, timeout=to, workers=3) for cfg, to in mcs]
     laws_cfg = "C17_laws" if thorough else "C17_laws_q"
     fl = pool.submit(ctx.generate, "MapReduce", laws_cfg, mode="bfs", timeout=900, workers=3)
-    folds = [("C17_parts3", 12000 if thorough else 1500)]
+    folds = [("C17_parts3", 6000 if thorough else 1500)]
     if thorough:
-        folds.append(("C17_parts4", 8000))
+        folds.append(("C17_parts4", 4000))
     ff = [(cfg, pool.submit(ctx.generate, "MapReduce", cfg, mode="simulate", num=num, depth=70, timeout=1200))
           for cfg, num in folds]
     if thorough:
         runs = [("C17_cat3b", dict(mode="bfs", timeout=900, workers=3)),   # every placement and order, limit 3
-                ("C17_cat3", dict(mode="simulate", num=200, depth=70, timeout=900)),  # both limits
-                ("C17_free3", dict(mode="simulate", num=300, depth=70, timeout=900)),
-                ("C17_cat4", dict(mode="simulate", num=300, depth=70, timeout=900)),
-                ("C17_free4", dict(mode="simulate", num=200, depth=70, timeout=900))]
+                ("C17_cat3", dict(mode="simulate", num=100, depth=70, timeout=900)),  # both limits
+                ("C17_free3", dict(mode="simulate", num=200, depth=70, timeout=900)),
+                ("C17_cat4", dict(mode="simulate", num=200, depth=70, timeout=900)),
+                ("C17_free4", dict(mode="simulate", num=150, depth=70, timeout=900))]
     else:
         runs = [("C17_cat3", dict(mode="simulate", num=120, depth=70, timeout=600)),
                 ("C17_free3", dict(mode="simulate", num=50, depth=70, timeout=600)),
